@@ -60,21 +60,23 @@ def run(ctx):
     rep.assumptions = ['the csv module requires newline=\'\' on both sides; TextIOWrapper.detach() flushes',
                        'pickle.load reads exactly one record written by one pickle.dump']
     rep.trusted = ['skeleton extractor']
-    r151(ctx, rep)
-    r152(ctx, rep)
-    r153(ctx, rep)
-    r153_memory(ctx, rep)
-    r154_155(ctx, rep)
+    ctx.attempt(r151, ctx, rep)
+    ctx.attempt(r152, ctx, rep)
+    ctx.attempt(r153, ctx, rep)
+    ctx.attempt(r153_memory, ctx, rep)
+    ctx.attempt(r154_155, ctx, rep)
     rep.rule('R15.6', 'one row per record in the readers, one record per row in the writers, on every path of the loop')
-    r156(ctx, rep)
+    ctx.attempt(r156, ctx, rep)
     rep.rule('R15.7', 'the Uncloseable stream proxy is transparent: everything but close() is answered by the wrapped stream')
-    r157(ctx, rep)
+    ctx.attempt(r157, ctx, rep)
     rep.rule('R15.8', 'appending text never writes a second byte order mark: no append writer wraps a member-restarting (gzip / bz2) stream with a BOM-capable caller encoding unchanged')
-    r158(ctx, rep)
+    ctx.attempt(r158, ctx, rep)
     rep.rule('R15.9', 'source objects hand the open mode on unchanged (append stays append)')
-    r159(ctx, rep)
+    ctx.attempt(r159, ctx, rep)
     rep.rule('R15.10', 'records written for a row carry every header field: no zip(fields, row) truncation of short rows')
-    r1510(ctx, rep)
+    ctx.attempt(r1510, ctx, rep)
+    rep.rule('R15.11', 'a writer opens its target on every path to a normal exit: writing a table without rows (or without a header) still creates / truncates the target')
+    ctx.attempt(r1511, ctx, rep)
 
 
 def r151(ctx, rep):
@@ -119,39 +121,133 @@ def r151(ctx, rep):
                     rep.violated('R15.4', fn, 'write_through=True', 'the json writer neither flushes nor writes through', node)
 
 
+class _NoFlow(Exception):
+    pass
+
+
+def _dialect_flow(ctx, mod, fn, start, depth=0):
+    """[(dialect, call node)]: the value of the 'dialect' formatting argument with which the version specific
+    implementation (the first callee outside petl.io.csv that gets **csvargs) is reached when `fn` is entered with
+    `start` ('ABSENT': the caller gave none, else a value).  setdefault / membership-guarded stores / get-with-default
+    are interpreted; delegation inside petl.io.csv is followed."""
+    kw = fn.kwarg
+    if kw is None:
+        raise _NoFlow('%s has no **kwargs' % fn.name)
+    if depth > 3:
+        raise _NoFlow('delegation too deep')
+    out = []
+
+    def is_key(e):
+        return isinstance(e, ast.Constant) and e.value == 'dialect'
+
+    def test_value(t, d):
+        from ..ladder import positive
+        p, neg = positive(t)
+        v = None
+        if isinstance(p, ast.Compare) and len(p.ops) == 1 and isinstance(p.ops[0], ast.In) and is_key(p.left) and \
+                norm(p.comparators[0]) == kw:
+            v = d != 'ABSENT'
+        elif isinstance(p, ast.Compare) and len(p.ops) == 1 and isinstance(p.ops[0], ast.Is) and \
+                norm(p.left) in ("%s.get('dialect')" % kw, "%s.get('dialect', None)" % kw) and norm(p.comparators[0]) == 'None':
+            v = d == 'ABSENT'
+        if v is None:
+            return None
+        return (not v) if neg else v
+
+    def value_of(e, d):
+        if isinstance(e, ast.Call) and norm(e.func) == '%s.get' % kw and e.args and is_key(e.args[0]):
+            if d != 'ABSENT':
+                return d
+            return norm(e.args[1]) if len(e.args) > 1 else 'None'
+        if isinstance(e, ast.Subscript) and norm(e.value) == kw and is_key(e.slice):
+            return d
+        return norm(e)
+
+    def calls_in(s):
+        return [n for n in ast.walk(s) if isinstance(n, ast.Call)]
+
+    def walk(stmts, d):
+        for i, s in enumerate(stmts):
+            if isinstance(s, ast.If):
+                tv = test_value(s.test, d)
+                rest = stmts[i + 1:]
+                if tv is None:
+                    walk(list(s.body) + rest, d)
+                    walk(list(s.orelse) + rest, d)
+                else:
+                    walk(list(s.body if tv else s.orelse) + rest, d)
+                return
+            if isinstance(s, (ast.For, ast.While, ast.With, ast.Try)):
+                inner = list(getattr(s, 'body', []))
+                walk(inner + stmts[i + 1:], d)
+                return
+            for c in calls_in(s):
+                if norm(c.func) == '%s.setdefault' % kw and len(c.args) == 2 and is_key(c.args[0]):
+                    if d == 'ABSENT':
+                        d = norm(c.args[1])
+                elif norm(c.func) in ('%s.pop' % kw,) and c.args and is_key(c.args[0]):
+                    d = 'ABSENT'
+                elif norm(c.func) == '%s.update' % kw:
+                    for k in c.keywords:
+                        if k.arg == 'dialect':
+                            d = norm(k.value)
+                elif any(k.arg is None and isinstance(k.value, ast.Name) and k.value.id == kw for k in c.keywords):
+                    explicit = [k for k in c.keywords if k.arg == 'dialect']
+                    callee = norm(c.func)
+                    g = mod.functions.get(callee) if isinstance(c.func, ast.Name) else None
+                    if g is not None and g is not fn and g.kwarg:
+                        out.extend(_dialect_flow(ctx, mod, g, d, depth + 1))
+                    else:
+                        out.append((d, c))
+            if isinstance(s, ast.Assign) and len(s.targets) == 1 and isinstance(s.targets[0], ast.Subscript) and \
+                    norm(s.targets[0].value) == kw and is_key(s.targets[0].slice):
+                d = value_of(s.value, d)
+            elif isinstance(s, ast.Assign) and any(norm(t) == kw for t in s.targets):
+                raise _NoFlow('%s is rebound: %s' % (kw, norm(s)[:50]))
+            if isinstance(s, (ast.Return, ast.Raise)):
+                return
+    walk(list(fn.node.body), start)
+    return out
+
+
 def r152(ctx, rep):
     mod = ctx.project.modules.get('petl.io.csv')
     if mod is None:
         raise AnalysisError('anchor vanished: petl.io.csv')
+    from .c16 import _all_forwarded
+    from ..report import Report
+    sub = Report('C16', ctx.tier, ctx.root)
     for name, want in DIALECTS.items():
         fn = mod.functions.get(name)
         if fn is None:
             raise AnalysisError('anchor vanished: petl.io.csv:%s' % name)
-        sd = [n for n in own_nodes(fn.node) if isinstance(n, ast.Call) and norm(n.func) == 'csvargs.setdefault']
-        ok = len(sd) == 1 and [norm(a) for a in sd[0].args] == ["'dialect'", want]
-        if ok:
-            rep.held('R15.2', fn, "csvargs.setdefault('dialect', %s)" % want, '', sd[0])
-        else:
-            rep.violated('R15.2', fn, "csvargs.setdefault('dialect', %s)" % want,
-                         'default dialect of %s is %s' % (name, [norm(s) for s in sd]), fn.node)
-        # **csvargs handed on
-        calls = [n for n in own_nodes(fn.node) if isinstance(n, ast.Call) and any(k.arg is None and norm(k.value) == 'csvargs'
-                                                                                  for k in n.keywords)]
-        if calls:
-            rep.held('R15.2', fn, '**csvargs', 'passed on', calls[0])
-        else:
-            rep.violated('R15.2', fn, '**csvargs', 'the csv formatting arguments are not handed on', fn.node)
-    from .c16 import _all_forwarded
-    from ..report import Report
-    sub = Report('C16', ctx.tier, ctx.root)
-    for wname, callee in (('fromcsv', 'fromcsv_impl'), ('fromtsv', 'fromcsv'), ('tocsv', 'tocsv_impl'), ('totsv', 'tocsv'),
-                          ('appendcsv', 'appendcsv_impl'), ('appendtsv', 'appendcsv')):
-        fn = mod.functions.get(wname)
-        calls = [n for n in own_nodes(fn.node) if isinstance(n, ast.Call) and norm(n.func) == callee]
-        if len(calls) != 1:
-            rep.violated('R15.2', fn, callee + '(...)', 'expected exactly one delegation to %s' % callee, fn.node)
+        c = "default dialect %s, the caller's dialect wins" % want
+        try:
+            absent = _dialect_flow(ctx, mod, fn, 'ABSENT')
+            given = _dialect_flow(ctx, mod, fn, 'USER')
+        except _NoFlow as e:
+            rep.undecided('R15.2', fn, c, str(e), fn.node)
             continue
-        _all_forwarded(sub, fn, calls[0])
+        if not absent or not given:
+            rep.violated('R15.2', fn, '**csvargs', 'the csv formatting arguments are not handed on to the implementation', fn.node)
+            continue
+        bad = [(d, call) for d, call in absent if d != want] + [(d, call) for d, call in given if d != 'USER']
+        if bad:
+            rep.violated('R15.2', fn, c, 'default dialect of %s: the implementation is reached with dialect %s when the caller '
+                         'gave none and %s when the caller gave one' % (name, sorted({d for d, _ in absent}),
+                                                                        sorted({d for d, _ in given})), bad[0][1])
+        else:
+            rep.held('R15.2', fn, c, 'on all %d path(s) to the implementation' % len(absent), fn.node)
+        rep.held('R15.2', fn, '**csvargs', 'passed on', absent[0][1])
+        # every other argument of the public function travels with it (first hop)
+        hops = [n for n in own_nodes(fn.node) if isinstance(n, ast.Call) and
+                any(k.arg is None and isinstance(k.value, ast.Name) and k.value.id == fn.kwarg for k in n.keywords)]
+        if name.startswith('tee'):
+            continue
+        if len(hops) != 1:
+            rep.undecided('R15.2', fn, 'forwarding', '%d calls spread **%s' % (len(hops), fn.kwarg), fn.node)
+            continue
+        _all_forwarded(sub, fn, hops[0])
     for o in sub.obligations:
         if o.construct.split('=')[-1].rstrip(')') in ('table',):
             continue
@@ -633,3 +729,48 @@ def r1510(ctx, rep):
     rep.held('R15.10', ('petl.io', '*'), 'records carry every field', '%d writer/reader functions scanned' % n, None)
     if n < 20:
         raise AnalysisError('anchor vanished: io functions (%d)' % n)
+
+
+# ----------------------------------------------------------------------- R15.11
+WRITER_MODULES = ('petl.io.csv_py3', 'petl.io.text', 'petl.io.pickle', 'petl.io.json', 'petl.io.html')
+
+
+def r1511(ctx, rep):
+    """to*(t, target) followed by from*(target) gives t back also when t has no rows at all: the target must have been
+    opened for writing (created / truncated), so no `return` of a writer may be reachable before its `with X.open(mode)`."""
+    n = 0
+    for fn in ctx.functions(list(WRITER_MODULES)):
+        if fn.is_generator:
+            continue
+        node = fn.node
+        withs = [w for w in own_nodes(node) if isinstance(w, ast.With) and any(
+            isinstance(i.context_expr, ast.Call) and isinstance(i.context_expr.func, ast.Attribute) and
+            i.context_expr.func.attr == 'open' for i in w.items)]
+        if not withs:
+            continue
+        # only functions that open a target for writing: the opened object comes from write_source_from_arg or is
+        # a parameter and the function writes to the stream
+        writes = any(isinstance(c, ast.Call) and isinstance(c.func, ast.Attribute) and
+                     c.func.attr in ('write', 'writerow', 'writerows', 'dump') or
+                     (isinstance(c, ast.Call) and norm(c.func) in ('pickle.dump', '_writeobj', '_write_begin', '_write_row'))
+                     for w in withs for c in ast.walk(w))
+        if not writes:
+            continue
+        n += 1
+        first = min(withs, key=lambda w: (w.lineno, w.col_offset))
+        inside = set()
+        for w in withs:
+            for x in ast.walk(w):
+                inside.add(id(x))
+        early = [r for r in own_nodes(node) if isinstance(r, ast.Return) and id(r) not in inside and
+                 (r.lineno, r.col_offset) < (first.lineno, first.col_offset)]
+        if early:
+            for r in early:
+                rep.violated('R15.11', fn, 'return before %s' % norm(first.items[0].context_expr),
+                             'the writer can return without having opened its target: for such a table (no header row / no '
+                             'rows) the target is neither created nor truncated, and reading it back fails or yields what an '
+                             'earlier write left there', r)
+        else:
+            rep.held('R15.11', fn, 'open %s' % norm(first.items[0].context_expr), 'no return precedes the open', first)
+    if n < 4:
+        raise AnalysisError('anchor vanished: only %d writer functions that open a target' % n)
